@@ -347,8 +347,1109 @@ fn exec(case: &Value) -> Value {
     }
 }
 
-fn gen_cases(_rng: &mut Rng, _tier: Tier) -> Vec<Value> {
-    vec![]
+// ------------------------------------------------------------------------------------------------
+// generator: mostly valid documents with many optional sections, then targeted rule-breaking
+// mutations (every rule reachable) and a malformed-value stream for totality
+
+const DAY: i64 = 86_400;
+const HOUR: i64 = 3_600;
+const T0: i64 = 1_562_198_400; // 2019-07-04T00:00:00Z
+const SLOTS: [(i64, i64); 3] = [(10, 11), (12, 13), (14, 15)];
+const COST_KINDS: [&str; 3] = ["minimize-cost", "minimize-distance", "minimize-duration"];
+const EXTRA_KINDS: [&str; 9] = [
+    "balance-max-load",
+    "balance-activities",
+    "balance-distance",
+    "balance-duration",
+    "minimize-arrival-time",
+    "fast-service",
+    "compact-tour",
+    "maximize-tours",
+    "minimize-tours",
+];
+
+fn gloc(coords: bool, i: usize) -> Value {
+    if coords { json!({"c": [52 + i as i64, 13 + (i as i64 % 3)]}) } else { json!({"i": i}) }
+}
+
+fn gen_times(rng: &mut Rng, day: i64) -> Value {
+    match rng.below(10) {
+        0..=4 => Value::Null,
+        5..=6 => json!([[day + 9 * HOUR, day + 17 * HOUR]]),
+        7..=8 => json!([[day + 9 * HOUR, day + 11 * HOUR], [day + 13 * HOUR, day + 15 * HOUR]]),
+        _ => json!([[day + 15 * HOUR, day + 16 * HOUR], [day + 9 * HOUR, day + 10 * HOUR], [day + 12 * HOUR, day + 13 * HOUR]]),
+    }
+}
+
+fn gen_place(rng: &mut Rng, coords: bool, nloc: usize, simple: bool) -> Value {
+    json!({
+        "loc": gloc(coords, rng.usize(0, nloc - 1)),
+        "dur": rng.range(0, 600),
+        "times": if simple { if rng.chance(1, 2) { Value::Null } else { json!([[T0 + 9 * HOUR, T0 + 17 * HOUR]]) } } else { gen_times(rng, T0) },
+        "tag": if rng.chance(1, 4) { json!(format!("tag{}", rng.below(3))) } else { Value::Null },
+    })
+}
+
+fn gen_task(rng: &mut Rng, coords: bool, nloc: usize, demand: Option<Vec<i64>>, order: bool, simple: bool) -> Value {
+    let nplaces = if simple || rng.chance(3, 4) { 1 } else { 2 };
+    json!({
+        "places": (0..nplaces).map(|_| gen_place(rng, coords, nloc, simple)).collect::<Vec<_>>(),
+        "demand": demand,
+        "order": if order && rng.chance(1, 2) { json!(rng.range(1, 3)) } else { Value::Null },
+    })
+}
+
+fn gen_shift(rng: &mut Rng, coords: bool, nloc: usize, k: i64, multi_shift: bool, has_resources: bool) -> Value {
+    let day = T0 + k * DAY;
+    let e = day + 8 * HOUR;
+    let depot = rng.usize(0, nloc - 1);
+    let mut breaks = Value::Null;
+    let mut uses_offset = false;
+    if rng.chance(1, 3) {
+        let n = rng.usize(0, 2);
+        let mut slots = SLOTS.to_vec();
+        rng.shuffle(&mut slots);
+        let mut list = vec![];
+        for (a, b) in slots.into_iter().take(n) {
+            let places = json!([{"dur": 600, "loc": if rng.chance(1, 2) { Value::Null } else { gloc(coords, rng.usize(0, nloc - 1)) },
+                                  "tag": if rng.chance(1, 4) { json!("brk") } else { Value::Null }}]);
+            let policy = match rng.below(3) {
+                0 => Value::Null,
+                1 => json!("skip-if-no-intersection"),
+                _ => json!("skip-if-arrival-before-end"),
+            };
+            list.push(match rng.below(4) {
+                0 => json!({"kind": "otw", "tw": [day + a * HOUR, day + b * HOUR], "places": places, "policy": policy}),
+                1 => {
+                    uses_offset = true;
+                    json!({"kind": "ooff", "off": [(a - 8) * HOUR, (b - 8) * HOUR], "places": places, "policy": policy})
+                }
+                2 => json!({"kind": "rex", "e": day + a * HOUR, "l": day + a * HOUR + 1800, "dur": 600}),
+                _ => {
+                    uses_offset = true;
+                    json!({"kind": "roff", "e": (a - 8) * HOUR, "l": (a - 8) * HOUR + 1800, "dur": 600})
+                }
+            });
+        }
+        breaks = json!(list);
+    }
+    let latest = if uses_offset {
+        json!(e)
+    } else {
+        match rng.below(3) {
+            0 => Value::Null,
+            1 => json!(e),
+            _ => json!(e + HOUR),
+        }
+    };
+    let end = if !multi_shift && rng.chance(1, 5) {
+        Value::Null
+    } else {
+        json!({"e": if rng.chance(1, 6) { json!(day + 16 * HOUR) } else { Value::Null }, "l": day + 18 * HOUR,
+               "loc": gloc(coords, if rng.chance(2, 3) { depot } else { rng.usize(0, nloc - 1) })})
+    };
+    let reloads = if rng.chance(1, 3) {
+        let n = rng.usize(0, 2);
+        json!((0..n)
+            .map(|i| json!({"loc": gloc(coords, rng.usize(0, nloc - 1)), "dur": 300,
+                "times": if rng.chance(1, 2) { Value::Null } else { json!([[day + 9 * HOUR, day + 17 * HOUR]]) },
+                "tag": if rng.chance(1, 3) { json!(format!("rl{i}")) } else { Value::Null },
+                "res": if has_resources && rng.chance(1, 2) { json!("res1") } else { Value::Null }}))
+            .collect::<Vec<_>>())
+    } else {
+        Value::Null
+    };
+    let recharges = if rng.chance(1, 6) {
+        let n = rng.usize(1, 2);
+        json!({"maxd": 50_000, "stations": (0..n).map(|_| json!({"loc": gloc(coords, rng.usize(0, nloc - 1)), "dur": 600,
+            "times": if rng.chance(1, 2) { Value::Null } else { json!([[day + 9 * HOUR, day + 17 * HOUR]]) }, "tag": Value::Null})).collect::<Vec<_>>()})
+    } else {
+        Value::Null
+    };
+    json!({"start": {"e": e, "l": latest, "loc": gloc(coords, depot)}, "end": end, "breaks": breaks, "reloads": reloads, "recharges": recharges})
+}
+
+/// matrix dimension a document needs (largest index + 1, number of distinct locations, at least 1)
+fn required_size(doc: &Value) -> u64 {
+    let mut locs: Vec<String> = vec![];
+    let mut max_idx = 0u64;
+    fn walk(v: &Value, locs: &mut Vec<String>, max_idx: &mut u64) {
+        match v {
+            Value::Object(m) => {
+                for (k, x) in m.iter() {
+                    if k == "loc" && !x.is_null() {
+                        let key = x.to_string();
+                        if !locs.contains(&key) {
+                            locs.push(key);
+                        }
+                        if let Some(i) = x.get("i").and_then(|i| i.as_u64()) {
+                            *max_idx = (*max_idx).max(i + 1);
+                        }
+                    } else {
+                        walk(x, locs, max_idx);
+                    }
+                }
+            }
+            Value::Array(a) => a.iter().for_each(|x| walk(x, locs, max_idx)),
+            _ => {}
+        }
+    }
+    walk(&doc["jobs"], &mut locs, &mut max_idx);
+    walk(&doc["vehicles"], &mut locs, &mut max_idx);
+    max_idx.max(locs.len() as u64).max(1)
+}
+
+fn set_matrices(doc: &mut Value, rng: &mut Rng) {
+    let n = required_size(doc);
+    let names: Vec<String> = arr(&doc["profiles"]).iter().map(|p| s(&p["name"])).collect();
+    let style = rng.below(20);
+    let mut ms = vec![];
+    for name in names.iter() {
+        match style {
+            0 | 1 => ms.push(json!({"profile": Value::Null, "ts": Value::Null, "tt": n * n, "dist": n * n})),
+            2 => {
+                ms.push(json!({"profile": name, "ts": T0, "tt": n * n, "dist": n * n}));
+                ms.push(json!({"profile": name, "ts": T0 + 6 * HOUR, "tt": n * n, "dist": n * n}));
+            }
+            _ => ms.push(json!({"profile": name, "ts": Value::Null, "tt": n * n, "dist": n * n})),
+        }
+    }
+    doc["matrices"] = json!(ms);
+}
+
+fn gen_objectives(rng: &mut Rng, has_value: bool, has_order: bool) -> Value {
+    let mut os: Vec<Value> = vec![json!({"t": "minimize-unassigned", "breaks": if rng.chance(1, 3) { json!(1) } else { Value::Null }})];
+    if has_value {
+        os.insert(0, json!({"t": "maximize-value", "breaks": Value::Null}));
+    }
+    if has_order && rng.chance(2, 3) {
+        os.push(json!({"t": "tour-order"}));
+    }
+    let mut extras = EXTRA_KINDS.to_vec();
+    rng.shuffle(&mut extras);
+    for k in extras.into_iter().take(rng.usize(0, 2)) {
+        os.push(match k {
+            "compact-tour" => json!({"t": k, "radius": rng.usize(1, 3)}),
+            _ => json!({"t": k}),
+        });
+    }
+    os.push(json!({"t": *rng.pick(&COST_KINDS)}));
+    // sometimes nest two neighbours into one multi-objective
+    if os.len() >= 2 && rng.chance(1, 3) {
+        let i = rng.usize(0, os.len() - 2);
+        let a = os.remove(i);
+        let b = os.remove(i);
+        let w = if rng.chance(1, 2) { Value::Null } else { json!([1, 2]) };
+        os.insert(i, json!({"t": "multi-objective", "os": [a, b], "w": w}));
+    }
+    json!(os)
+}
+
+struct Gen {
+    doc: Value,
+    entry: &'static str,
+}
+
+fn gen_valid(rng: &mut Rng) -> Gen {
+    let coords = rng.chance(1, 5);
+    let nloc = rng.usize(3, 7);
+    let dims = if rng.chance(1, 4) { 2 } else { 1 };
+    let has_objectives = rng.chance(3, 5);
+    let has_value = rng.chance(1, 4);
+    let has_order = rng.chance(1, 4);
+    let nprof = rng.usize(1, 2);
+    let profiles: Vec<Value> = ["car", "truck"][..nprof]
+        .iter()
+        .map(|n| json!({"name": n, "speed": if rng.chance(1, 4) { json!(rng.range(5, 20)) } else { Value::Null }}))
+        .collect();
+    let has_resources = rng.chance(1, 4);
+    let resources = if has_resources {
+        let mut r = vec![json!({"id": "res1", "cap": vec![20; dims]})];
+        if rng.chance(1, 2) {
+            r.push(json!({"id": "res2", "cap": vec![30; dims]}));
+        }
+        json!(r)
+    } else {
+        Value::Null
+    };
+
+    let mut vehicles = vec![];
+    let mut next_id = 1;
+    for t in 0..rng.usize(1, 3) {
+        let ids: Vec<String> = (0..rng.usize(1, 2))
+            .map(|_| {
+                next_id += 1;
+                format!("v{}", next_id - 1)
+            })
+            .collect();
+        let nshifts = if rng.chance(1, 4) { 2 } else { 1 };
+        let shifts: Vec<Value> = (0..nshifts).map(|k| gen_shift(rng, coords, nloc, k, nshifts > 1, has_resources)).collect();
+        let zero_one = rng.below(6);
+        let vprofile = ["car", "truck"][rng.usize(0, nprof - 1)];
+        vehicles.push(json!({
+            "type": format!("type{}", t + 1), "ids": ids, "profile": vprofile,
+            "scale": if rng.chance(1, 6) { json!(2) } else { Value::Null },
+            "fixed": if rng.chance(1, 2) { json!(rng.range(0, 100)) } else { Value::Null },
+            "cdist": if zero_one == 0 { 0 } else { rng.range(1, 3) }, "ctime": if zero_one == 1 { 0 } else { rng.range(1, 3) },
+            "shifts": shifts, "cap": (0..dims).map(|_| rng.range(5, 20)).collect::<Vec<_>>(), "skills": rng.chance(1, 4),
+            "limits": if rng.chance(1, 4) { json!({"dist": if rng.chance(1, 2) { json!(100_000) } else { Value::Null },
+                "dur": if rng.chance(1, 2) { json!(40_000) } else { Value::Null }, "size": if rng.chance(1, 2) { json!(rng.range(3, 9)) } else { Value::Null }}) } else { Value::Null },
+        }));
+    }
+
+    let mut jobs = vec![];
+    let njobs = rng.usize(2, 6);
+    for i in 0..njobs {
+        let dem = |rng: &mut Rng| (0..dims).map(|_| rng.range(0, 3)).collect::<Vec<i64>>();
+        // the first two jobs are simple (one place, at most one window) so that relations can name them
+        let simple = i < 2 || rng.chance(1, 3);
+        let mut j = json!({"id": format!("job{}", i + 1), "p": Value::Null, "d": Value::Null, "r": Value::Null, "s": Value::Null,
+            "value2": if has_value && (i == 0 || rng.chance(1, 2)) { json!(rng.range(2, 20)) } else { Value::Null },
+            "skills": rng.chance(1, 6),
+            "group": if rng.chance(1, 8) { json!("g1") } else { Value::Null },
+            "compat": if rng.chance(1, 8) { json!("c1") } else { Value::Null }});
+        let order = has_order;
+        match rng.below(8) {
+            0 | 1 => {
+                let x = dem(rng);
+                j["d"] = json!([gen_task(rng, coords, nloc, Some(x), order, simple)]);
+            }
+            2 => {
+                let x = dem(rng);
+                j["p"] = json!([gen_task(rng, coords, nloc, Some(x), order, simple)]);
+            }
+            3 => {
+                let x = dem(rng);
+                j["p"] = json!([gen_task(rng, coords, nloc, Some(x.clone()), order, simple)]);
+                j["d"] = json!([gen_task(rng, coords, nloc, Some(x), order, simple)]);
+            }
+            4 => {
+                let a = dem(rng);
+                let b = dem(rng);
+                let sum: Vec<i64> = a.iter().zip(b.iter()).map(|(x, y)| x + y).collect();
+                j["p"] = json!([gen_task(rng, coords, nloc, Some(a), order, simple), gen_task(rng, coords, nloc, Some(b), order, simple)]);
+                j["d"] = json!([gen_task(rng, coords, nloc, Some(sum), order, simple)]);
+            }
+            5 => j["s"] = json!([gen_task(rng, coords, nloc, None, order, simple)]),
+            6 => {
+                let x = dem(rng);
+                j["r"] = json!([gen_task(rng, coords, nloc, Some(x), order, simple)]);
+            }
+            _ => {
+                // unusual but valid layouts: empty list next to a filled one, two deliveries
+                j["p"] = json!([]);
+                let (x, y) = (dem(rng), dem(rng));
+                j["d"] = json!([gen_task(rng, coords, nloc, Some(x), order, simple), gen_task(rng, coords, nloc, Some(y), order, simple)]);
+            }
+        }
+        jobs.push(j);
+    }
+    if has_order && !jobs.iter().any(|j| has_positive_order(j)) {
+        let key = ["p", "d", "r", "s"].into_iter().find(|k| !arr(&jobs[0][*k]).is_empty()).unwrap();
+        jobs[0][key][0]["order"] = json!(1);
+    }
+
+    let mut doc = json!({"jobs": jobs, "relations": Value::Null, "clustering": if rng.chance(1, 12) { json!("car") } else { Value::Null },
+        "vehicles": vehicles, "profiles": profiles, "resources": resources,
+        "objectives": if has_objectives { gen_objectives(rng, has_value, has_order) } else { Value::Null }, "matrices": []});
+
+    if rng.chance(2, 5) {
+        gen_relations(&mut doc, rng);
+    }
+    let entry = if coords && rng.chance(1, 2) {
+        "approx"
+    } else if rng.chance(1, 3) {
+        "typed"
+    } else {
+        "str"
+    };
+    if entry != "approx" {
+        set_matrices(&mut doc, rng);
+    }
+    Gen { doc, entry }
+}
+
+fn has_positive_order(j: &Value) -> bool {
+    ["p", "d", "r", "s"].iter().any(|k| arr(&j[*k]).iter().any(|t| t["order"].as_i64().is_some_and(|o| o > 0)))
+}
+
+fn task_count(j: &Value) -> usize {
+    ["p", "d", "r", "s"].iter().map(|k| arr(&j[*k]).len()).sum()
+}
+
+fn is_simple_job(j: &Value) -> bool {
+    ["p", "d", "r", "s"].iter().all(|k| {
+        arr(&j[*k]).iter().all(|t| arr(&t["places"]).len() == 1 && arr(&t["places"]).iter().all(|p| arr(&p["times"]).len() <= 1))
+    })
+}
+
+/// (vehicle id, number of shifts, shifts) of every vehicle id
+fn vehicle_ids(doc: &Value) -> Vec<(String, Vec<Value>)> {
+    arr(&doc["vehicles"]).iter().flat_map(|v| arr(&v["ids"]).iter().map(|id| (s(id), arr(&v["shifts"]).to_vec())).collect::<Vec<_>>()).collect()
+}
+
+fn optional_breaks(shift: &Value) -> usize {
+    arr(&shift["breaks"]).iter().filter(|b| matches!(b["kind"].as_str(), Some("otw") | Some("ooff"))).count()
+}
+
+fn gen_relations(doc: &mut Value, rng: &mut Rng) {
+    let mut vids = vehicle_ids(doc);
+    rng.shuffle(&mut vids);
+    let mut pool: Vec<(String, usize)> = arr(&doc["jobs"]).iter().filter(|j| is_simple_job(j)).map(|j| (s(&j["id"]), task_count(j))).collect();
+    rng.shuffle(&mut pool);
+    let mut rels = vec![];
+    for (vid, shifts) in vids.into_iter().take(rng.usize(1, 2)) {
+        if pool.is_empty() || shifts.is_empty() {
+            break;
+        }
+        let sidx = rng.usize(0, shifts.len() - 1);
+        let shift = &shifts[sidx];
+        let mut jobs: Vec<String> = vec![];
+        for _ in 0..rng.usize(1, 2) {
+            if let Some((id, n)) = pool.pop() {
+                for _ in 0..n {
+                    jobs.push(id.clone());
+                }
+            }
+        }
+        for _ in 0..rng.usize(0, optional_breaks(shift)) {
+            let at = rng.usize(0, jobs.len());
+            jobs.insert(at, "break".to_string());
+        }
+        for _ in 0..rng.usize(0, arr(&shift["reloads"]).len()) {
+            let at = rng.usize(0, jobs.len());
+            jobs.insert(at, "reload".to_string());
+        }
+        if rng.chance(1, 3) {
+            jobs.insert(0, "departure".to_string());
+        }
+        if !shift["end"].is_null() && rng.chance(1, 3) {
+            jobs.push("arrival".to_string());
+        }
+        rels.push(json!({"type": *rng.pick(&["any", "sequence", "strict"]), "jobs": jobs, "vehicle": vid,
+            "shift": if sidx == 0 && rng.chance(1, 2) { Value::Null } else { json!(sidx) }}));
+    }
+    doc["relations"] = json!(rels);
+}
+
+// ---- targeted mutations -------------------------------------------------------------------------
+
+fn task_keys() -> [&'static str; 4] {
+    ["p", "d", "r", "s"]
+}
+
+/// (job index, list key, task index) of all tasks
+fn all_tasks(doc: &Value) -> Vec<(usize, &'static str, usize)> {
+    let mut out = vec![];
+    for (ji, j) in arr(&doc["jobs"]).iter().enumerate() {
+        for k in task_keys() {
+            for ti in 0..arr(&j[k]).len() {
+                out.push((ji, k, ti));
+            }
+        }
+    }
+    out
+}
+
+fn pick_task(doc: &Value, rng: &mut Rng, pred: impl Fn(&Value, &str) -> bool) -> Option<(usize, &'static str, usize)> {
+    let c: Vec<_> = all_tasks(doc).into_iter().filter(|(j, k, t)| pred(&doc["jobs"][*j][*k][*t], k)).collect();
+    if c.is_empty() { None } else { Some(*rng.pick(&c)) }
+}
+
+/// (vehicle index, shift index) of all shifts
+fn all_shifts(doc: &Value) -> Vec<(usize, usize)> {
+    arr(&doc["vehicles"]).iter().enumerate().flat_map(|(vi, v)| (0..arr(&v["shifts"]).len()).map(move |si| (vi, si))).collect()
+}
+
+fn ensure_relation(doc: &mut Value, rng: &mut Rng) -> Option<usize> {
+    if arr(&doc["relations"]).is_empty() {
+        let vids = vehicle_ids(doc);
+        let (vid, shifts) = vids.into_iter().find(|(_, sh)| !sh.is_empty())?;
+        let _ = shifts;
+        let job = arr(&doc["jobs"]).iter().find(|j| is_simple_job(j) && task_count(j) > 0)?;
+        let jobs: Vec<String> = (0..task_count(job)).map(|_| s(&job["id"])).collect();
+        doc["relations"] = json!([{"type": *rng.pick(&["any", "sequence", "strict"]), "jobs": jobs, "vehicle": vid, "shift": Value::Null}]);
+    }
+    Some(rng.usize(0, arr(&doc["relations"]).len() - 1))
+}
+
+fn rel_shift<'a>(doc: &'a Value, rel: &Value) -> Option<&'a Value> {
+    let vid = s(&rel["vehicle"]);
+    let v = arr(&doc["vehicles"]).iter().rev().find(|v| arr(&v["ids"]).iter().any(|i| s(i) == vid))?;
+    arr(&v["shifts"]).get(rel["shift"].as_u64().unwrap_or(0) as usize)
+}
+
+fn ensure_objectives(doc: &mut Value, rng: &mut Rng) {
+    if doc["objectives"].is_null() {
+        let has_value = arr(&doc["jobs"]).iter().any(|j| j["value2"].as_i64().is_some_and(|v| v > 0));
+        doc["objectives"] = gen_objectives(rng, has_value, false);
+        // keep E1605 quiet unless asked for
+        for j in doc["jobs"].as_array_mut().unwrap().iter_mut() {
+            if j["value2"].as_i64().is_some_and(|v| v < 2) {
+                j["value2"] = json!(2);
+            }
+        }
+    }
+}
+
+/// appends an objective at top level or inside a (possibly new) multi-objective
+fn push_objective(doc: &mut Value, rng: &mut Rng, o: Value) -> &'static str {
+    let os = doc["objectives"].as_array_mut().unwrap();
+    let multi: Vec<usize> = os.iter().enumerate().filter(|(_, x)| x["t"] == "multi-objective").map(|(i, _)| i).collect();
+    if !multi.is_empty() && rng.chance(1, 2) {
+        let i = *rng.pick(&multi);
+        os[i]["os"].as_array_mut().unwrap().push(o);
+        os[i]["w"] = Value::Null;
+        "nested"
+    } else if rng.chance(1, 3) {
+        os.push(json!({"t": "multi-objective", "os": [o, {"t": "minimize-tours-x"}], "w": Value::Null}));
+        // the placeholder kind is replaced by a harmless distinct one below
+        let last = os.len() - 1;
+        os[last]["os"][1] = json!({"t": "hierarchical-areas", "levels": 1});
+        "new-multi"
+    } else {
+        let at = rng.usize(0, os.len());
+        os.insert(at, o);
+        "top"
+    }
+}
+
+fn flat_kinds(doc: &Value) -> Vec<String> {
+    arr(&doc["objectives"]).iter().flat_map(|o| if o["t"] == "multi-objective" { arr(&o["os"]).iter().map(|x| s(&x["t"])).collect() } else { vec![s(&o["t"])] }).collect()
+}
+
+fn remove_kind(doc: &mut Value, pred: impl Fn(&str) -> bool) {
+    if let Some(os) = doc["objectives"].as_array_mut() {
+        os.retain(|o| !pred(o["t"].as_str().unwrap_or("")));
+        for o in os.iter_mut() {
+            if o["t"] == "multi-objective" {
+                o["os"].as_array_mut().unwrap().retain(|x| !pred(x["t"].as_str().unwrap_or("")));
+                o["w"] = Value::Null;
+            }
+        }
+    }
+}
+
+const N_MUTATIONS: u64 = 64;
+
+/// applies the targeted mutation number `m`; returns its label when it was applicable
+fn mutate(doc: &mut Value, m: u64, rng: &mut Rng) -> Option<String> {
+    let njobs = arr(&doc["jobs"]).len();
+    let day = T0;
+    match m {
+        0 => {
+            if njobs < 2 { return None; }
+            let k = rng.usize(1, njobs - 1);
+            let src = rng.usize(0, k - 1);
+            doc["jobs"][k]["id"] = doc["jobs"][src]["id"].clone();
+            Some("E1100:dup-job-id".into())
+        }
+        1 => {
+            let (j, k, t) = pick_task(doc, rng, |_, k| k != "s")?;
+            doc["jobs"][j][k][t]["demand"] = Value::Null;
+            Some(format!("E1101:no-demand:{k}"))
+        }
+        2 => {
+            let (j, k, t) = pick_task(doc, rng, |_, k| k == "s")?;
+            doc["jobs"][j][k][t]["demand"] = json!([1]);
+            Some("E1101:service-demand".into())
+        }
+        3 => {
+            // unbalance a pickup/delivery job in one (possibly the last) dimension
+            let c: Vec<usize> = (0..njobs).filter(|j| !arr(&doc["jobs"][*j]["p"]).is_empty() && !arr(&doc["jobs"][*j]["d"]).is_empty()).collect();
+            if c.is_empty() { return None; }
+            let j = *rng.pick(&c);
+            let side = *rng.pick(&["p", "d"]);
+            let t = rng.usize(0, arr(&doc["jobs"][j][side]).len() - 1);
+            let dm = doc["jobs"][j][side][t]["demand"].as_array_mut()?;
+            if dm.is_empty() || rng.chance(1, 4) {
+                dm.push(json!(1));
+            } else {
+                let i = if rng.chance(1, 2) { dm.len() - 1 } else { rng.usize(0, dm.len() - 1) };
+                dm[i] = json!(dm[i].as_i64().unwrap_or(0) + rng.range(1, 2));
+            }
+            Some(format!("E1102:unbalance:{side}"))
+        }
+        4..=10 => {
+            // time windows of a job place (every task type)
+            let (j, k, t) = pick_task(doc, rng, |t, _| !arr(&t["places"]).is_empty())?;
+            let p = rng.usize(0, arr(&doc["jobs"][j][k][t]["places"]).len() - 1);
+            let times = &mut doc["jobs"][j][k][t]["places"][p]["times"];
+            let what = match m {
+                4 => { *times = json!([[day + 12 * HOUR, day + 9 * HOUR]]); "reversed" }
+                5 => { *times = json!([[day + 9 * HOUR, day + 12 * HOUR], [day + 12 * HOUR, day + 13 * HOUR]]); "touching" }
+                6 => { *times = json!([[day + 9 * HOUR, day + 12 * HOUR], [day + 14 * HOUR, day + 15 * HOUR], [day + 11 * HOUR, day + 13 * HOUR]]); "three-intersecting" }
+                7 => { *times = json!([[day + 13 * HOUR, day + 14 * HOUR], [day + 12 * HOUR, day + 9 * HOUR], [day + 15 * HOUR, day + 16 * HOUR]]); "three-one-reversed" }
+                8 => { *times = if rng.chance(1, 2) { json!([["bad", day + 12 * HOUR]]) } else { json!([[day + 9 * HOUR, day + 10 * HOUR], [day + 12 * HOUR, "bad"]]) }; "bad-date" }
+                9 => { *times = if rng.chance(1, 2) { json!([[day + 9 * HOUR]]) } else { json!([[day + 9 * HOUR, day + 10 * HOUR, day + 11 * HOUR]]) }; "wrong-length" }
+                _ => { *times = json!([]); "empty-list" }
+            };
+            Some(format!("E1103:{what}:{k}"))
+        }
+        11 => {
+            let j = rng.usize(0, njobs.checked_sub(1)?);
+            doc["jobs"][j]["id"] = json!(*rng.pick(&["departure", "arrival", "break", "reload"]));
+            Some("E1104:reserved-id".into())
+        }
+        12 => {
+            let j = rng.usize(0, njobs.checked_sub(1)?);
+            for k in task_keys() {
+                doc["jobs"][j][k] = if rng.chance(1, 2) { Value::Null } else { json!([]) };
+            }
+            Some("E1105:empty-job".into())
+        }
+        13 => {
+            let (j, k, t) = pick_task(doc, rng, |t, _| !arr(&t["places"]).is_empty())?;
+            let p = rng.usize(0, arr(&doc["jobs"][j][k][t]["places"]).len() - 1);
+            doc["jobs"][j][k][t]["places"][p]["dur"] = json!(-rng.range(1, 100));
+            Some(format!("E1106:negative-duration:{k}"))
+        }
+        14 => {
+            let (j, k, t) = pick_task(doc, rng, |t, _| !arr(&t["demand"]).is_empty())?;
+            let n = arr(&doc["jobs"][j][k][t]["demand"]).len();
+            doc["jobs"][j][k][t]["demand"][rng.usize(0, n - 1)] = json!(-1);
+            Some(format!("E1107:negative-demand:{k}"))
+        }
+        15 => {
+            let r = ensure_relation(doc, rng)?;
+            let jobs = doc["relations"][r]["jobs"].as_array_mut()?;
+            let at = rng.usize(0, jobs.len());
+            jobs.insert(at, json!(*rng.pick(&["ghost", "job99", "recharge", ""])));
+            Some("E1200:unknown-job".into())
+        }
+        16 => {
+            let r = ensure_relation(doc, rng)?;
+            doc["relations"][r]["vehicle"] = json!(*rng.pick(&["ghost", "type1", ""]));
+            Some("E1201:unknown-vehicle".into())
+        }
+        17 => {
+            let r = ensure_relation(doc, rng)?;
+            doc["relations"][r]["jobs"] = match rng.below(3) {
+                0 => json!([]),
+                1 => json!(["departure"]),
+                _ => json!(["departure", "arrival"]),
+            };
+            Some("E1202:no-jobs".into())
+        }
+        18 | 19 => {
+            // job named by a relation gets a second place / a second window (any relation type)
+            let r = ensure_relation(doc, rng)?;
+            let ty = s(&doc["relations"][r]["type"]);
+            let ids: Vec<String> = arr(&doc["relations"][r]["jobs"]).iter().map(s).collect();
+            let ji = (0..njobs).find(|j| ids.contains(&s(&doc["jobs"][*j]["id"])))?;
+            let k = task_keys().into_iter().find(|k| !arr(&doc["jobs"][ji][*k]).is_empty())?;
+            let places = doc["jobs"][ji][k][0]["places"].as_array_mut()?;
+            if places.is_empty() { return None; }
+            if m == 18 {
+                let extra = places[0].clone();
+                places.push(extra);
+            } else {
+                places[0]["times"] = json!([[day + 9 * HOUR, day + 10 * HOUR], [day + 12 * HOUR, day + 13 * HOUR]]);
+            }
+            Some(format!("E1203:{}:{ty}", if m == 18 { "two-places" } else { "two-windows" }))
+        }
+        20 => {
+            // same job in two relations with different vehicles
+            let r = ensure_relation(doc, rng)?;
+            let rel = doc["relations"][r].clone();
+            let vid = s(&rel["vehicle"]);
+            let other = vehicle_ids(doc).into_iter().map(|(v, _)| v).find(|v| *v != vid);
+            let other = match other {
+                Some(o) => o,
+                None => {
+                    doc["vehicles"][0]["ids"].as_array_mut()?.push(json!("v_extra"));
+                    "v_extra".to_string()
+                }
+            };
+            let mut copy = rel;
+            copy["vehicle"] = json!(other);
+            copy["shift"] = Value::Null;
+            copy["jobs"] = json!(arr(&copy["jobs"]).iter().filter(|j| !["departure", "arrival", "break", "reload"].contains(&j.as_str().unwrap_or(""))).cloned().collect::<Vec<_>>());
+            if arr(&copy["jobs"]).is_empty() { return None; }
+            doc["relations"].as_array_mut()?.push(copy);
+            Some("E1204:two-vehicles".into())
+        }
+        21 => {
+            let r = ensure_relation(doc, rng)?;
+            let n = vehicle_ids(doc).into_iter().find(|(v, _)| *v == s(&doc["relations"][r]["vehicle"])).map(|(_, sh)| sh.len())?;
+            doc["relations"][r]["shift"] = json!(n + rng.usize(0, 1));
+            Some("E1205:shift-index".into())
+        }
+        22 => {
+            // one more reserved entry than the shift defines
+            let r = ensure_relation(doc, rng)?;
+            let rel = doc["relations"][r].clone();
+            let shift = rel_shift(doc, &rel)?.clone();
+            let kind = *rng.pick(&["break", "reload", "recharge", "arrival"]);
+            let defined = match kind {
+                "break" => optional_breaks(&shift),
+                "reload" => arr(&shift["reloads"]).len(),
+                "recharge" => arr(&shift["recharges"]["stations"]).len(),
+                _ => if shift["end"].is_null() { 0 } else { return None },
+            };
+            let have = arr(&rel["jobs"]).iter().filter(|j| j.as_str() == Some(kind)).count();
+            let jobs = doc["relations"][r]["jobs"].as_array_mut()?;
+            for _ in have..=defined {
+                let at = if kind == "arrival" { jobs.len() } else { rng.usize(0, jobs.len()) };
+                jobs.insert(at, json!(kind));
+            }
+            Some(format!("E1206:surplus-{kind}"))
+        }
+        23 => {
+            let r = ensure_relation(doc, rng)?;
+            let jobs = doc["relations"][r]["jobs"].as_array_mut()?;
+            let c: Vec<usize> = (0..jobs.len()).filter(|i| !["departure", "arrival", "break", "reload", "recharge"].contains(&jobs[*i].as_str().unwrap_or(""))).collect();
+            if c.is_empty() { return None; }
+            let i = *rng.pick(&c);
+            if rng.chance(1, 2) {
+                let x = jobs[i].clone();
+                jobs.insert(i, x);
+                Some("E1207:listed-too-often".into())
+            } else {
+                // a job with two tasks listed once
+                let id = s(&jobs[i]);
+                let ji = (0..njobs).find(|j| s(&doc["jobs"][*j]["id"]) == id)?;
+                let k = task_keys().into_iter().find(|k| !arr(&doc["jobs"][ji][*k]).is_empty())?;
+                let extra = doc["jobs"][ji][k][0].clone();
+                doc["jobs"][ji][k].as_array_mut()?.push(extra);
+                Some("E1207:listed-too-rarely".into())
+            }
+        }
+        24 => {
+            let n = arr(&doc["vehicles"]).len();
+            if n == 0 { return None; }
+            if n >= 2 {
+                doc["vehicles"][n - 1]["type"] = doc["vehicles"][0]["type"].clone();
+            } else {
+                let mut copy = doc["vehicles"][0].clone();
+                copy["ids"] = json!(["v_copy"]);
+                doc["vehicles"].as_array_mut()?.push(copy);
+            }
+            Some("E1300:dup-type-id".into())
+        }
+        25 => {
+            let n = arr(&doc["vehicles"]).len();
+            if n == 0 { return None; }
+            let src = s(arr(&doc["vehicles"][0]["ids"]).first()?);
+            let target = rng.usize(0, n - 1);
+            doc["vehicles"][target]["ids"].as_array_mut()?.push(json!(src));
+            Some("E1301:dup-vehicle-id".into())
+        }
+        26..=32 => {
+            let sh = all_shifts(doc);
+            if sh.is_empty() { return None; }
+            let (vi, si) = *rng.pick(&sh);
+            let shift = &mut doc["vehicles"][vi]["shifts"][si];
+            let what = match m {
+                26 => { if shift["end"].is_null() { return None; } shift["end"]["l"] = json!(shift["start"]["e"].as_i64()? - HOUR); "end-before-start" }
+                27 => { shift["start"]["e"] = json!("bad"); "bad-start" }
+                28 => { if shift["end"].is_null() { return None; } shift["end"]["l"] = json!("bad"); "bad-end" }
+                29 => {
+                    // a second shift overlapping the first
+                    let mut copy = shift.clone();
+                    if let Some(e) = copy["start"]["e"].as_i64() { copy["start"]["e"] = json!(e + HOUR); if !copy["start"]["l"].is_null() { copy["start"]["l"] = json!(e + HOUR); } }
+                    doc["vehicles"][vi]["shifts"].as_array_mut()?.push(copy);
+                    "overlapping-shifts"
+                }
+                30 => { doc["vehicles"][vi]["shifts"] = json!([]); "no-shifts" }
+                31 => { shift["start"]["l"] = json!("bad"); "bad-start-latest" }
+                _ => { if shift["end"].is_null() { return None; } shift["end"]["e"] = json!("bad"); "bad-end-earliest" }
+            };
+            Some(format!("E1302:{what}"))
+        }
+        33..=39 => {
+            let sh = all_shifts(doc);
+            if sh.is_empty() { return None; }
+            let (vi, si) = *rng.pick(&sh);
+            let shift = &mut doc["vehicles"][vi]["shifts"][si];
+            let e = shift["start"]["e"].as_i64()?;
+            let places = json!([{"dur": 600, "loc": Value::Null, "tag": Value::Null}]);
+            let mut list = arr(&shift["breaks"]).to_vec();
+            let what = match m {
+                33 => { list.push(json!({"kind": "otw", "tw": [e - 5 * HOUR, e - 4 * HOUR], "places": places, "policy": Value::Null})); "outside-shift" }
+                34 => { list.push(json!({"kind": "otw", "tw": [e + 3 * HOUR, e + 2 * HOUR], "places": places, "policy": Value::Null})); "reversed" }
+                35 => { list.push(json!({"kind": "otw", "tw": if rng.chance(1, 2) { json!(["bad", e + 2 * HOUR]) } else { json!([e + HOUR]) }, "places": places, "policy": Value::Null})); "malformed-window" }
+                36 => {
+                    list.push(json!({"kind": "otw", "tw": [e + 6 * HOUR + 600, e + 6 * HOUR + 1800], "places": places, "policy": Value::Null}));
+                    list.push(json!({"kind": "rex", "e": e + 6 * HOUR, "l": e + 6 * HOUR + 900, "dur": 600}));
+                    "intersecting-breaks"
+                }
+                37 => { list.push(json!({"kind": "rex", "e": if rng.chance(1, 2) { json!("bad") } else { json!(e + HOUR) }, "l": "bad", "dur": 600})); "bad-exact-date" }
+                38 => {
+                    shift["start"]["l"] = json!(e);
+                    list.push(json!({"kind": "ooff", "off": if rng.chance(1, 2) { json!([3600]) } else { json!([3600, 7200, 9000]) }, "places": places, "policy": Value::Null}));
+                    "offset-list-length"
+                }
+                _ => {
+                    shift["start"]["l"] = json!(e);
+                    list.push(json!({"kind": "roff", "e": 30 * HOUR, "l": 31 * HOUR, "dur": 600}));
+                    if shift["end"].is_null() { return None; }
+                    "offset-outside-shift"
+                }
+            };
+            shift["breaks"] = json!(list);
+            Some(format!("E1303:{what}"))
+        }
+        40..=43 => {
+            let sh = all_shifts(doc);
+            if sh.is_empty() { return None; }
+            let (vi, si) = *rng.pick(&sh);
+            let shift = &mut doc["vehicles"][vi]["shifts"][si];
+            let e = shift["start"]["e"].as_i64()?;
+            let loc = shift["start"]["loc"].clone();
+            let times = match m {
+                40 => json!([[e - 5 * HOUR, e - 4 * HOUR]]),
+                41 => json!([[e + 3 * HOUR, e + 2 * HOUR]]),
+                42 => if rng.chance(1, 2) { json!([[e + HOUR, "bad"]]) } else { json!([[e + HOUR]]) },
+                _ => json!([]),
+            };
+            let what = ["outside-shift", "reversed", "malformed-window", "empty-list"][(m - 40) as usize];
+            if rng.chance(1, 2) {
+                let mut list = arr(&shift["reloads"]).to_vec();
+                list.push(json!({"loc": loc, "dur": 300, "times": times, "tag": Value::Null, "res": Value::Null}));
+                shift["reloads"] = json!(list);
+                Some(format!("E1304:reload-{what}"))
+            } else {
+                let mut stations = arr(&shift["recharges"]["stations"]).to_vec();
+                stations.push(json!({"loc": loc, "dur": 300, "times": times, "tag": Value::Null}));
+                shift["recharges"] = json!({"maxd": 50_000, "stations": stations});
+                Some(format!("E1304:recharge-{what}"))
+            }
+        }
+        44 => {
+            let n = arr(&doc["vehicles"]).len();
+            let vi = rng.usize(0, n.checked_sub(1)?);
+            doc["vehicles"][vi]["cdist"] = json!(0);
+            doc["vehicles"][vi]["ctime"] = json!(0);
+            Some("E1306:zero-costs".into())
+        }
+        45 => {
+            let sh = all_shifts(doc);
+            if sh.is_empty() { return None; }
+            let (vi, si) = *rng.pick(&sh);
+            let shift = &mut doc["vehicles"][vi]["shifts"][si];
+            let e = shift["start"]["e"].as_i64()?;
+            let mut list = arr(&shift["breaks"]).to_vec();
+            if !list.iter().any(|b| matches!(b["kind"].as_str(), Some("ooff") | Some("roff"))) {
+                list.push(if rng.chance(1, 2) {
+                    json!({"kind": "roff", "e": 5 * HOUR + 1200, "l": 5 * HOUR + 1500, "dur": 300})
+                } else {
+                    json!({"kind": "ooff", "off": [5 * HOUR + 1200, 5 * HOUR + 1500], "places": [{"dur": 300, "loc": Value::Null, "tag": Value::Null}], "policy": Value::Null})
+                });
+                shift["breaks"] = json!(list);
+            }
+            shift["start"]["l"] = if rng.chance(1, 2) { Value::Null } else { json!(e + 60) };
+            Some("E1307:offset-with-rescheduling".into())
+        }
+        46 => {
+            let mut r = arr(&doc["resources"]).to_vec();
+            if r.is_empty() { r.push(json!({"id": "res1", "cap": [20]})); }
+            let copy = r[0].clone();
+            r.push(copy);
+            doc["resources"] = json!(r);
+            Some("E1308:dup-resource-id".into())
+        }
+        47 => {
+            let sh = all_shifts(doc);
+            if sh.is_empty() { return None; }
+            let (vi, si) = *rng.pick(&sh);
+            let shift = &mut doc["vehicles"][vi]["shifts"][si];
+            let loc = shift["start"]["loc"].clone();
+            let mut list = arr(&shift["reloads"]).to_vec();
+            list.push(json!({"loc": loc, "dur": 300, "times": Value::Null, "tag": Value::Null, "res": "ghost-res"}));
+            shift["reloads"] = json!(list);
+            Some("E1308:unknown-resource".into())
+        }
+        48 => {
+            let p = doc["profiles"].as_array_mut()?;
+            let first = p.first()?.clone();
+            p.push(first);
+            Some("E1500:dup-profile".into())
+        }
+        49 => {
+            doc["profiles"] = json!([]);
+            Some("E1501:no-profiles".into())
+        }
+        50 => {
+            // mix location types
+            let (j, k, t) = pick_task(doc, rng, |t, _| !arr(&t["places"]).is_empty())?;
+            let l = &mut doc["jobs"][j][k][t]["places"][0]["loc"];
+            *l = if l.get("i").is_some() { json!({"c": [52, 13]}) } else { json!({"i": 0}) };
+            Some("E1502:mixed-locations".into())
+        }
+        51 => {
+            doc["matrices"] = json!([]);
+            Some("E1503:no-matrix".into())
+        }
+        52 => {
+            let n = arr(&doc["matrices"]).len();
+            if n == 0 { return None; }
+            let i = rng.usize(0, n - 1);
+            let size = (doc["matrices"][i]["dist"].as_u64()? as f64).sqrt().round() as u64;
+            let (what, len) = match rng.below(5) {
+                0 => ("smaller", (size.max(1) - 1) * (size.max(1) - 1)),
+                1 => ("larger", (size + 1) * (size + 1)),
+                2 => ("not-square-below", (size * size).max(1) - 1),
+                3 => ("not-square-above", size * size + 1),
+                _ => ("empty", 0),
+            };
+            doc["matrices"][i]["dist"] = json!(len);
+            doc["matrices"][i]["tt"] = json!(len);
+            Some(format!("E1504:matrix-{what}:{}", if i == 0 { "first" } else { "other" }))
+        }
+        53 => {
+            // an index beyond the matrix
+            let (j, k, t) = pick_task(doc, rng, |t, _| arr(&t["places"]).first().is_some_and(|p| p["loc"].get("i").is_some()))?;
+            let size = required_size(doc);
+            doc["jobs"][j][k][t]["places"][0]["loc"] = json!({"i": match rng.below(3) { 0 => size, 1 => size + 5, _ => 1_000_000_000_000u64 }});
+            Some("E1504:index-beyond-matrix".into())
+        }
+        54 => {
+            if !doc["clustering"].is_null() && rng.chance(1, 2) {
+                doc["clustering"] = json!("ghost-profile");
+                Some("E1505:clustering-profile".into())
+            } else {
+                let n = arr(&doc["vehicles"]).len();
+                let vi = rng.usize(0, n.checked_sub(1)?);
+                doc["vehicles"][vi]["profile"] = json!("ghost-profile");
+                Some("E1505:vehicle-profile".into())
+            }
+        }
+        55 => {
+            doc["objectives"] = json!([]);
+            Some("E1600:empty-objectives".into())
+        }
+        56 => {
+            ensure_objectives(doc, rng);
+            let kinds = flat_kinds(doc);
+            let k = rng.pick(&kinds).clone();
+            let o = match k.as_str() {
+                "compact-tour" => json!({"t": k, "radius": 2}),
+                _ => json!({"t": k}),
+            };
+            let at = push_objective(doc, rng, o);
+            Some(format!("E1601:duplicate:{at}"))
+        }
+        57 => {
+            ensure_objectives(doc, rng);
+            remove_kind(doc, |k| COST_KINDS.contains(&k));
+            if arr(&doc["objectives"]).is_empty() { return None; }
+            Some("E1602:no-cost-objective".into())
+        }
+        58 => {
+            ensure_objectives(doc, rng);
+            if flat_kinds(doc).iter().any(|k| k == "maximize-value") {
+                // drop the valued jobs instead
+                for j in doc["jobs"].as_array_mut()?.iter_mut() { j["value2"] = Value::Null; }
+                Some("E1603:values-removed".into())
+            } else {
+                if arr(&doc["jobs"]).iter().any(|j| j["value2"].as_i64().is_some_and(|v| v > 0)) { return None; }
+                let at = push_objective(doc, rng, json!({"t": "maximize-value", "breaks": Value::Null}));
+                Some(format!("E1603:value-objective:{at}"))
+            }
+        }
+        59 => {
+            ensure_objectives(doc, rng);
+            for j in doc["jobs"].as_array_mut()?.iter_mut() {
+                for k in task_keys() {
+                    if let Some(ts) = j[k].as_array_mut() { for t in ts.iter_mut() { t["order"] = Value::Null; } }
+                }
+            }
+            if !flat_kinds(doc).iter().any(|k| k == "tour-order") {
+                let at = push_objective(doc, rng, json!({"t": "tour-order"}));
+                return Some(format!("E1604:order-objective:{at}"));
+            }
+            Some("E1604:orders-removed".into())
+        }
+        60 => {
+            ensure_objectives(doc, rng);
+            if rng.chance(1, 2) {
+                let j = rng.usize(0, njobs.checked_sub(1)?);
+                doc["jobs"][j]["value2"] = json!(*rng.pick(&[0, 1, -2]));
+                Some("E1605:value-below-one".into())
+            } else {
+                let (j, k, t) = pick_task(doc, rng, |_, _| true)?;
+                doc["jobs"][j][k][t]["order"] = json!(*rng.pick(&[0, -1]));
+                Some(format!("E1605:order-below-one:{k}"))
+            }
+        }
+        61 => {
+            ensure_objectives(doc, rng);
+            let have = flat_kinds(doc);
+            let k = COST_KINDS.iter().find(|k| !have.iter().any(|h| h == *k))?;
+            let at = push_objective(doc, rng, json!({"t": k}));
+            Some(format!("E1606:second-cost-objective:{at}"))
+        }
+        62 => {
+            ensure_objectives(doc, rng);
+            remove_kind(doc, |k| k == "maximize-value");
+            if arr(&doc["objectives"]).is_empty() { return None; }
+            let j = rng.usize(0, njobs.checked_sub(1)?);
+            doc["jobs"][j]["value2"] = json!(rng.range(2, 9));
+            Some("E1607:value-without-objective".into())
+        }
+        _ => {
+            // E1605 is silent without an `objectives` property
+            if !doc["objectives"].is_null() { return None; }
+            let j = rng.usize(0, njobs.checked_sub(1)?);
+            doc["jobs"][j]["value2"] = json!(0);
+            Some("none:value-zero-without-objectives".into())
+        }
+    }
+}
+
+// ---- malformed-value stream: type-directed edits anywhere in the document -----------------------
+
+const NULLABLE: [&str; 22] = ["times", "tag", "l", "end", "breaks", "reloads", "recharges", "limits", "relations", "clustering", "resources",
+    "objectives", "demand", "order", "value2", "res", "shift", "ts", "p", "d", "r", "s"];
+const NAT_KEYS: [&str; 7] = ["i", "tt", "dist", "shift", "radius", "levels", "size"];
+const SMALL_KEYS: [&str; 3] = ["demand", "cap", "c"];
+
+fn collect_paths(v: &Value, path: &mut Vec<String>, out: &mut Vec<Vec<String>>) {
+    out.push(path.clone());
+    match v {
+        Value::Object(m) => {
+            for (k, x) in m.iter() {
+                path.push(k.clone());
+                collect_paths(x, path, out);
+                path.pop();
+            }
+        }
+        Value::Array(a) => {
+            for (i, x) in a.iter().enumerate() {
+                path.push(i.to_string());
+                collect_paths(x, path, out);
+                path.pop();
+            }
+        }
+        _ => {}
+    }
+}
+
+fn at_path<'a>(v: &'a mut Value, path: &[String]) -> &'a mut Value {
+    let mut cur = v;
+    for p in path {
+        cur = if cur.is_array() { &mut cur[p.parse::<usize>().unwrap()] } else { &mut cur[p.as_str()] };
+    }
+    cur
+}
+
+fn last_key(path: &[String]) -> &str {
+    path.iter().rev().find(|p| p.parse::<usize>().is_err()).map(|s| s.as_str()).unwrap_or("")
+}
+
+fn is_time_position(path: &[String]) -> bool {
+    let k = last_key(path);
+    let direct = path.last().map(|s| s.as_str()).unwrap_or("");
+    ((k == "times" || k == "tw") && direct.parse::<usize>().is_ok()) || (direct == "ts")
+        || ((direct == "e" || direct == "l") && !path.iter().any(|p| p == "breaks"))
+}
+
+fn malform(doc: &mut Value, rng: &mut Rng) -> Option<String> {
+    let mut paths = vec![];
+    collect_paths(doc, &mut vec![], &mut paths);
+    let path = rng.pick(&paths).clone();
+    if path.is_empty() { return None; }
+    let key = last_key(&path).to_string();
+    let direct = path.last().cloned().unwrap_or_default();
+    let time_pos = is_time_position(&path);
+    let v = at_path(doc, &path);
+    let label;
+    match v.clone() {
+        Value::Number(n) => {
+            let x = n.as_i64()?;
+            if time_pos {
+                *v = if rng.chance(1, 2) { json!("bad") } else { json!(*rng.pick(&[0, x + DAY, x - DAY, -x])) };
+                label = "time";
+            } else if NAT_KEYS.contains(&direct.as_str()) || NAT_KEYS.contains(&key.as_str()) && direct != "dur" {
+                *v = json!(*rng.pick(&[0u64, 1, (x as u64) + 1, (x as u64).saturating_sub(1), 1000]));
+                label = "nat";
+            } else if SMALL_KEYS.contains(&key.as_str()) {
+                *v = json!(*rng.pick(&[0, -1, 1, -x, 1 << 20]));
+                label = "small-int";
+            } else {
+                *v = json!(*rng.pick(&[0, -1, 1, -x, x * 1000, 1 << 31]));
+                label = "int";
+            }
+        }
+        Value::String(_) => {
+            if key == "kind" || key == "t" || key == "type" && path.iter().any(|p| p == "relations") || key == "policy" { return None; }
+            *v = json!(*rng.pick(&["", "departure", "reload", "job1", "v1", "car", "res1", "type1", "x"]));
+            label = "string";
+        }
+        Value::Array(a) => {
+            if key == "c" { return None; }
+            let arr = v.as_array_mut()?;
+            match rng.below(4) {
+                0 => { arr.clear(); label = "array-clear"; }
+                1 => { arr.pop(); label = "array-pop"; }
+                2 => { if let Some(l) = a.last() { arr.push(l.clone()); } label = "array-dup-last"; }
+                _ => { arr.reverse(); label = "array-reverse"; }
+            }
+        }
+        Value::Object(_) | Value::Bool(_) => {
+            if NULLABLE.contains(&direct.as_str()) || (direct.parse::<usize>().is_err() && NULLABLE.contains(&key.as_str()) && direct == key) {
+                *v = Value::Null;
+                label = "null";
+            } else {
+                return None;
+            }
+        }
+        Value::Null => return None,
+    }
+    Some(format!("malform:{label}:{}", path.iter().filter(|p| p.parse::<usize>().is_err()).cloned().collect::<Vec<_>>().join(".")))
+}
+
+/// shapes that are known findings on the current tree (kept out of the random streams; their
+/// witnesses live in the corpus): S21 more than 8 load dimensions, S23 a fleet without any vehicle
+fn excluded_shape(doc: &Value) -> bool {
+    fn dims_over(v: &Value) -> bool {
+        match v {
+            Value::Object(m) => m.iter().any(|(k, x)| ((k == "demand" || k == "cap") && arr(x).len() > 8) || dims_over(x)),
+            Value::Array(a) => a.iter().any(dims_over),
+            _ => false,
+        }
+    }
+    let fleet_empty = !arr(&doc["vehicles"]).iter().any(|v| !arr(&v["ids"]).is_empty() && !arr(&v["shifts"]).is_empty());
+    dims_over(doc) || fleet_empty
+}
+
+fn gen_cases(rng: &mut Rng, tier: Tier) -> Vec<Value> {
+    let n = if tier == Tier::Thorough { 200_000 } else { 8_000 };
+    let mut cases = vec![];
+    let mut target = 0u64;
+    while cases.len() < n {
+        let Gen { mut doc, entry } = gen_valid(rng);
+        let mut muts: Vec<String> = vec![];
+        let mut entry = entry;
+        match rng.below(10) {
+            0 | 1 => {}
+            2..=7 => {
+                // 1-3 targeted mutations; the first one cycles through all of them
+                for i in 0..rng.usize(1, 3) {
+                    let m = if i == 0 { target += 1; target % N_MUTATIONS } else { rng.below(N_MUTATIONS) };
+                    if let Some(l) = mutate(&mut doc, m, rng) {
+                        muts.push(l);
+                    }
+                }
+            }
+            _ => {
+                for _ in 0..rng.usize(1, 3) {
+                    if let Some(l) = malform(&mut doc, rng) {
+                        muts.push(l);
+                    }
+                }
+            }
+        }
+        if entry == "approx" && !arr(&doc["matrices"]).is_empty() {
+            entry = "str";
+        }
+        if excluded_shape(&doc) {
+            continue;
+        }
+        cases.push(json!({"k": "doc", "entry": entry, "doc": doc, "muts": muts}));
+    }
+    cases
 }
 
 fn main() {
